@@ -49,8 +49,13 @@ class _Busy(BaseException):
     pass
 
 
+_BUSY = {"fired": 0}
+
+
 def _busy(signum, frame):
-    raise _Busy()
+    _BUSY["fired"] += 1
+    if _BUSY["fired"] >= 3:      # (one firing may be a long garbage collection)
+        raise _Busy()
 
 
 def run_loop(main, trace=None):
@@ -60,7 +65,8 @@ def run_loop(main, trace=None):
     loop = asyncio.SelectorEventLoop(_Selector())
     loop.set_exception_handler(lambda loop_, ctx: None)     # what an abandoned scenario leaves behind is of no interest
     signal.signal(signal.SIGVTALRM, _busy)
-    signal.setitimer(signal.ITIMER_VIRTUAL, 20)
+    _BUSY["fired"] = 0
+    signal.setitimer(signal.ITIMER_VIRTUAL, 20, 0.5)
     try:
         return loop.run_until_complete(main)
     except Deadlock:
@@ -72,7 +78,7 @@ def run_loop(main, trace=None):
             trace.append({"e": "never-finishes"})
         return None
     finally:
-        signal.setitimer(signal.ITIMER_VIRTUAL, 0)
+        signal.setitimer(signal.ITIMER_VIRTUAL, 0, 0)
         try:
             for t in asyncio.all_tasks(loop):
                 t.cancel()
